@@ -153,6 +153,13 @@ def case_job(arg):
         root = os.path.join(td, "code")
         os.makedirs(root)
         gfile = os.path.join(td, "graph.plain")
+        if p.get("_export_elsewhere"):
+            # the graph file is asked for on another file system than the system's temporary directory (and in a directory
+            # of its own)
+            o = core.other_filesystem_dir(td)
+            if o is not None:
+                os.makedirs(os.path.join(o, "graphs"), exist_ok=True)
+                gfile = os.path.join(o, "graphs", "graph.plain")
         outs = {}
         for label, opts in (("plain", None), ("export", {"dds_export_graph": gfile})):
             if opts and stages:
@@ -265,6 +272,13 @@ def programs(tier, seed):
             q["name"] = "base/%s/%s" % (lay, "data-entry" if ed else "plain-entry")
             ps.append(q)
             k += 1
+    for src in (0, 1):
+        q = gen.clone(ps[src])
+        q["pkg"] = "g%d" % k
+        k += 1
+        q["name"] = ps[src]["name"] + "+graph-file-on-another-file-system"
+        q["_export_elsewhere"] = True
+        ps.append(q)
     # a second export in the same process after only the path variables of the data functions changed (module reloaded)
     for lay in ("three", "one"):
         for style in ("var", "pathlib"):
